@@ -74,6 +74,12 @@ def withRead {σ β : Type} (s : σ) (r : Outcome β) (k : β → StepR σ) : St
   | .err e => .err s e
   | .panic m => .panic m
 
+/-- `conflicts.finish()?`: nothing, the single error, or a bundle (`Error::multiple`) -/
+def bundleStep {σ : Type} (s : σ) : List Err → StepR σ
+  | [] => .ok s
+  | [e] => .err s e
+  | es => .err s (.multi es [] none)
+
 /-- `impl ParseAttribute for InputField`: `parse_nested` -/
 def fieldStep (o : Oracle) (s : FieldOpts) (mi : Meta) : StepR FieldOpts :=
   let p := mi.path'
@@ -99,8 +105,7 @@ def fieldStep (o : Oracle) (s : FieldOpts) (mi : Meta) : StepR FieldOpts :=
     let transformer := if p.isIdent "map" then "map" else "and_then"
     match s.post with
     | some pt =>
-        if transformer == pt.transformer then .err s (dupErr mi)
-        else .err s (exclusiveErr transformer pt.transformer mi)
+        .err s (if transformer == pt.transformer then dupErr mi else exclusiveErr transformer pt.transformer mi)
     | none => withRead s (readPath o mi) fun f => .ok { s with post := some ⟨transformer, f⟩ }
   else if p.isIdent "multiple" then
     if s.multiple.isSome then .err s (dupErr mi) else
@@ -117,12 +122,7 @@ def fieldStep (o : Oracle) (s : FieldOpts) (mi : Meta) : StepR FieldOpts :=
         (if s.attrName.isSome then [conflictErr "flatten" "rename" mi] else []) ++
         (if s.with_.isSome then [conflictErr "flatten" "with" mi] else []) ++
         (if skipTrue s then [conflictErr "flatten" "skip" mi] else [])
-      match conflicts with
-      | [] => .ok s
-      | cs => match Err.multiple cs with
-          | .ok e => .err s e
-          | .err e => .err s e
-          | .panic m => .panic m
+      bundleStep s conflicts
   else .err s (unknownErr mi)
 
 /-- `parse_attr`: the items of one `#[darling(..)]` attribute applied to a target -/
@@ -545,6 +545,9 @@ def fromMetaValidate (declIdentSpan : Span) (style? : Option Style) (nFields : N
   match style? with
   | some style =>
       flattenErrs st.fields ++
+      (if style == .tuple && nFields != 1 then
+         [(Err.custom "FromMeta can only be derived for tuple structs with exactly one field").withSpan declIdentSpan]
+       else []) ++
       (match fm.fromWord with
        | some (_, sp) =>
            if style == .unit then
@@ -552,12 +555,14 @@ def fromMetaValidate (declIdentSpan : Span) (style? : Option Style) (nFields : N
            else if style == .tuple && nFields == 1 then
              [(Err.custom "`from_word` cannot be used on newtype structs because the implementation is entirely delegated to the inner type").withSpan sp]
            else []
-       | none => []) ++
-      (if style == .tuple && nFields > 1 then
-         [(Err.custom "FromMeta cannot be derived for tuple structs with more than one field").withSpan declIdentSpan]
-       else [])
+       | none => [])
   | none =>
       let words := st.variants.filterMap (·.word)
+      (st.variants.filterMap (fun v =>
+         if v.style == .tuple && v.fields.length != 1 then
+           some ((Err.custom "FromMeta can only be derived for tuple variants with exactly one field").withSpan
+             ((variantSpans.find? (·.1 == v.ident)).map (·.2) |>.getD default))
+         else none)) ++
       (if !words.isEmpty then
          match fm.fromWord with
          | some (_, sp) => [(Err.custom "`from_word` cannot be used with an enum that also uses `word`").withSpan sp]
@@ -565,12 +570,7 @@ def fromMetaValidate (declIdentSpan : Span) (style? : Option Style) (nFields : N
        else []) ++
       (if words.length > 1 then
          words.map (fun w => (Err.custom "`#[darling(word)]` can only be applied to one variant").withSpan (w.2.getD default))
-       else []) ++
-      (st.variants.filterMap (fun v =>
-         if v.style == .tuple && v.fields.length > 1 then
-           some ((Err.custom "FromMeta cannot be derived for tuple variants with more than one field").withSpan
-             ((variantSpans.find? (·.1 == v.ident)).map (·.2) |>.getD default))
-         else none))
+       else [])
 
 /-- the first variant with `word = true` -/
 def wordVariant (vs : List RVariant) : Option String :=
@@ -600,7 +600,8 @@ def deriveFromMeta (o : Oracle) (sp : DeclSpans) (d : DeclD) : Outcome Derived :
         let (style?, n) : Option Style × Nat := match body with
           | .struct s fs => (some s, fs.length)
           | _ => (none, 0)
-        let errs := st.errs ++ fromMetaValidate sp.ident style? n fm st sp.variantIdents
+        -- `data.len()` in `validate_body` counts the fields that were parsed successfully
+        let errs := st.errs ++ fromMetaValidate sp.ident style? (if style?.isSome then st.fields.length else n) fm st sp.variantIdents
         match errs with
         | [] =>
             let data : RData := match body with
@@ -621,6 +622,7 @@ def deriveFromMeta (o : Oracle) (sp : DeclSpans) (d : DeclD) : Outcome Derived :
 def deriveOuter (t : Trait) (o : Oracle) (sim : String → Option (Nat × String)) (sp : DeclSpans) (d : DeclD) : Outcome Derived :=
   match d.body with
   | .union => .err (Err.custom "Unions are not supported")
+  | .enum [] => .err ((Err.new (.unsupportedShape "enum" none)).withSpan sp.ident)   -- `OuterFrom::start`
   | body =>
     match finishWith (parseAttributes (outerTraitStep t o) {} [] d.attrs) with
     | .err e => .err e
@@ -642,8 +644,7 @@ def deriveOuter (t : Trait) (o : Oracle) (sim : String → Option (Nat × String
                   ++ (if isEnum then "enum" else "struct"))).withSpan
                   ((sp.variantIdents.find? (·.1 == "#attrs")).map (·.2) |>.getD default)]
                else []
-           | none => []) ++
-          (if isEnum then [(Err.new (.unsupportedShape "enum" none)).withSpan sp.ident] else [])
+           | none => [])
         match st.errs ++ validate with
         | [] =>
             let (style, n) : Style × Nat := match body with
